@@ -234,16 +234,23 @@ def trim (s : Str) : Str :=
   let a := dropWs wsLen s.length s
   (dropWs wsLenRev a.length a.reverse).reverse
 
-/-- `i64::from_str` / `u64::from_str` shape: optional sign (only `+` when unsigned), then at least
-one ASCII digit and nothing else. Overflow of the 64-bit type needs no separate case: such values
-are outside the js_int range checked next. -/
-def parseDecimal (signed : Bool) (s : Str) : Option Int :=
-  let (neg, ds) := match s with
-    | 43 :: t => (false, t)
-    | 45 :: t => if signed then (true, t) else (false, s)
-    | _ => (false, s)
-  if ds.isEmpty || !ds.all isDigit then none
-  else some (if neg then -(Int.ofNat (digitsVal ds)) else Int.ofNat (digitsVal ds))
+/-- A numeral made of ASCII digits only (at least one). -/
+def natOfDigits (ds : Str) : Option Nat :=
+  if ds.isEmpty || !ds.all isDigit then none else some (digitsVal ds)
+
+/-- A base-10 integer with an optional single `+` or `-` sign (the shape `i64::from_str` accepts;
+overflow of the 64-bit type needs no separate case where the js_int range is checked next). -/
+def signedDecimal (s : Str) : Option Int :=
+  match s with
+  | 43 :: t => (natOfDigits t).map Int.ofNat
+  | 45 :: t => (natOfDigits t).map fun n => -(Int.ofNat n)
+  | _ => (natOfDigits s).map Int.ofNat
+
+/-- A base-10 natural number with an optional single `+` sign (the shape `u64::from_str` accepts). -/
+def unsignedDecimal (s : Str) : Option Int :=
+  match s with
+  | 43 :: t => (natOfDigits t).map Int.ofNat
+  | _ => (natOfDigits s).map Int.ofNat
 
 /-- `ID_MAX_BYTES`. -/
 def idMaxBytes : Nat := 255
